@@ -555,6 +555,7 @@ func TestVerifC25(t *testing.T) {
 			distinct++
 		}
 	}
+	c.Set("cpu_seconds", float64(int(c25cpu()*10))/10)
 	c.Set("evaluations", r.total.evals)
 	c.Set("distinct_nontrivial", r.total.nontrivial)
 	c.Set("rule", "one evaluation = one (content, length, start address, seed) tuple compared with the byte-pair reference; non-trivial = the reference result differs from the seed (the buffer contributed to the sum)")
@@ -584,4 +585,13 @@ func TestVerifC25(t *testing.T) {
 	c.Assume("content space beyond the enumerated patterns (all contents for length <= 2, or <= 3 in thorough) is not enumerable; lengths above the stated bound are covered only by the listed large sizes")
 	c.Assume("equality is bit-for-bit with the folded RFC 1071 sum (no 0x0000/0xffff equivalence is granted); an out-of-bounds read that faults counts as a violation")
 	c.Assume("the per-lane 32-bit carry headroom of the vector loop overflows only beyond 256 GiB buffers; not reachable")
+}
+
+// c25cpu returns the CPU seconds (user+system) this process has consumed: wall time is meaningless on a shared machine.
+func c25cpu() float64 {
+	var ru syscall.Rusage
+	if syscall.Getrusage(syscall.RUSAGE_SELF, &ru) != nil {
+		return 0
+	}
+	return float64(ru.Utime.Sec+ru.Stime.Sec) + float64(ru.Utime.Usec+ru.Stime.Usec)/1e6
 }
